@@ -53,7 +53,9 @@ class C13(Prop):
                   "filters and scheduling passes: MatchingBindingFilter.get_targets returns exactly the targets kept by "
                   "the property's wording, in declared order, or raises; it is total on well-formed predicates; a filter "
                   "chain keeps the survivors of all filters in declared order; filter objects are stateless across jobs (a "
-                  "sequence of jobs through the same objects = each job through the stateless chain); the scheduler's attempt loop (one FIFO-queued "
+                  "sequence of jobs through the same objects = each job through the stateless chain; this holds by "
+                  "construction of the model, whose filter_call passes the rules on unchanged: that the real objects keep "
+                  "nothing between calls is a modelling decision supported only by the fseq/sseq correspondence); the scheduler's attempt loop (one FIFO-queued "
                   "task per target, re-evaluated on every notify_all) allocates, in the first pass where any target can "
                   "host, the first such target of the list; end to end for schedule(). The pre-fix set()-based code is "
                   "proved to keep only the elements (refuted for order). Tied to /repo by running the real filter chain "
@@ -61,7 +63,9 @@ class C13(Prop):
                   "and the model on the same cases; oracle from the property text on the real observations.")
     LEVEL_NOTE = ("Scheduling assumption the attempt-loop theorems (C13_first*, C13_schedule) rest on: the per-target tasks of one "
                   "schedule() call take the scheduler's lock in creation (= declared) order and asyncio's Lock/Condition hand "
-                  "the lock over first-come-first-served; the model IS that discipline (a FIFO of tasks, `host` constant "
+                  "the lock over first-come-first-served, and the scheduler's retry_delay is unset (with a retry interval "
+                  "`wait_for(self.wait_queue.wait(), timeout)` wakes each waiting task on its own timer, not in "
+                  "condition-queue order, and 'one pass per notify_all' no longer describes the loop); the model IS that discipline (a FIFO of tasks, `host` constant "
                   "during a pass), it is not derived from asyncio. The sched/sseq correspondence exercises exactly this "
                   "assumption on the real DefaultScheduler under asyncio's default loop: the fake connectors' "
                   "get_available_locations take a per-location number of event-loop turns (earlier-declared targets slower in "
@@ -83,6 +87,7 @@ class C13(Prop):
     ASSUMPTIONS = ("tasks of one schedule() call take the scheduler lock in creation order under asyncio's default FIFO loop and "
                    "Lock/Condition hand-over (exercised with connector latencies, not proved)",
                    "the set of targets able to host is constant during one pass over the waiting tasks",
+                   "the scheduler's retry_delay is unset (retry_interval None): waiters are only woken by notify_all",
                    "shuffle filters are excluded (property text: shuffle-free chains)")
 
     # ---------------------------------------------------------------- generation
